@@ -22,7 +22,7 @@ def run(ctx):
     ctx.exhaustive["FamC10"] = True
     if ctx.tier == "quick":
         fam.sort(key=lambda c: c["id"])
-        keep = [c for i, c in enumerate(fam) if i % 3 == 0 or "/base/" in c["id"] or "/case/" in c["id"] or "/rotate/" in c["id"] or "/fn-" in c["id"] or "/compose/" in c["id"] or "/fnshape/" in c["id"] or "/shape2/" in c["id"] or ("/shape/" in c["id"] and i % 2 == 0) or "/writeonly/" in c["id"] or "/samelocal/" in c["id"]]
+        keep = [c for i, c in enumerate(fam) if i % 3 == 0 or "/base/" in c["id"] or "/case/" in c["id"] or "/rotate/" in c["id"] or "/fn-" in c["id"] or "/compose/" in c["id"] or "/fnshape/" in c["id"] or "/shape2/" in c["id"] or ("/shape/" in c["id"] and i % 2 == 0) or "/writeonly/" in c["id"] or "/samelocal/" in c["id"] or "/numpair/" in c["id"]]
         ctx.exhaustive["FamC10"] = False
         fam = keep
     res = progflow.validate(ctx, fam, "fam")
